@@ -46,7 +46,7 @@ def loop_class(g):
     if g["tiled"]:
         c.append("tiled")
         if any(i["k"] == "array" for i in its[:-1]):
-            c.append("array-not-last")
+            return "tiled+array-not-last"      # one class: the loop nest cannot be compiled (known finding)
     if any(i["k"] == "range" and i["st"] < 0 for i in its):
         c.append("negstep")
     if any(i["k"] == "range" and abs(i["st"]) > 1 for i in its):
